@@ -3,36 +3,42 @@
 // Level "exploration": exhaustive enumeration of small histories, all index pairs and an explicit adversary
 // alphabet; nothing is random.
 //
-// HISTORIES (worlds.go). Real stores: n transactions (quick 8, thorough 12) whose contents rotate through a
-// 12-entry catalog (keys {a,b,c} x values {"",x,y} x kv-metadata {none,deleted,non-indexable} x tx-metadata
+// HISTORIES (worlds.go). Real stores: n transactions (quick 8 and 4, thorough 12 and 4) whose contents rotate through
+// a 12-entry catalog (keys {a,b,c} x values {"",x,y} x kv-metadata {none,deleted,non-indexable} x tx-metadata
 // {none,extra}, 1..3 entries), header version {0,1}, binary linking {commit: BlTxID=ID-1; lag1/2/3 and burst3/4:
-// BlTxID lags, built with ExportTx -> patched header -> ReplicateTx}. For every history: a real FORK store for
-// every fork point p (same first p transactions, different suffix), and synthetic adversarial worlds:
-// G(k) coherent rewrite of tx k (entry -> Eh -> Alh -> later PrevAlh/BlRoot), TH(k,m) / TG(k,m): chain of one
-// history, binary-linking tree leaves k..m of the other (tree/chain split, the "linear-fake" family).
+// BlTxID lags the chain, built with ExportTx -> patched header -> ReplicateTx}. For every history H: a real FORK
+// store F(p) for every fork point p (same first p transactions, different suffix), and synthetic adversarial worlds
+// whose proofs are generated with the honest algorithm over the adversary's own material: G(k) coherent rewrite of
+// tx k (entry -> Eh -> Alh -> every later PrevAlh/BlRoot); TH(k,m) / TG(k,m): linear chain of one history, binary
+// linking tree leaves k..m of the other (tree/chain split: the "linear-fake" family of docs/security).
 //
-// O1 COMPLETENESS (store.go): on every real store every (s,t): DualProof/VerifyDualProof, DualProofV2, LinearProof,
-// LinearAdvanceProof (all tree sizes), every entry's Tx.Proof/VerifyInclusion must verify; s>t must be refused.
+// O1 COMPLETENESS (store.go): on every real store, every (s,t): DualProof+VerifyDualProof, DualProofV2, LinearProof,
+// LinearAdvanceProof (every tree size), every entry's Tx.Proof+VerifyInclusion verify; s>t is refused; the
+// client-side flows accept every honest response.
 //
 // O2 SOUNDNESS. The client is a SESSION holding a trusted (id, Alh); a response = (proven tx id, DualProof); the
-// client-side flow of pkg/client is replicated (trusted side never taken from the response). Enumerated for every
-// trusted state (H,s) and every proven t (forward and backward):
-//   - all SINGLE alterations: every header field <- boundary ints / flipped bit / every pool hash (all Alh, Eh, BlRoot,
+// verification flow of pkg/client is replicated (the trusted side is never taken from the response). For every trusted
+// state (H,s) and every proven t (t >= s: state advances; t < s: old transaction proven against the state):
+//   - every SINGLE alteration: every header field <- boundary ints / flipped bit / every pool hash (all Alh, Eh, BlRoot,
 //     inner hashes of H and two forks) / the field or whole header of H:id±1 and of every other world; every proof list
 //     <- drop/dup/swap/flip/substitute-by-pool/append/prepend/empty; every proof part and every single term <- the one
-//     of the neighbouring pairs (s±1,t±1) and of the same pair in every other world; ids; nil parts;
-//   - all PAIRS {header/id field} x {proof part} over reduced alphabets;
-//   - whole responses of every world in sessions of two advancing verifications + one re-read of an old transaction.
-//   Oracle: an accepted header must be a state of a known world that commits, at every position <= the trusted id, to
-//   what the trusted state commits to (forward), or be the transaction the trusted state commits to (backward). A fork
-//   strictly after the trusted state is legitimate and counted, never flagged. End-to-end oracle in sessions: no two
-//   different transactions are ever accepted for one id.
-//   raw.go: VerifyDualProofV2 (same session oracle), VerifyLinearProof, VerifyLinearAdvanceProof, VerifyInclusion with
-//   altered proofs AND altered claims against ground truth over all worlds.
+//     of the neighbouring pairs (s±1,t±1) of H and of the same pair in every other world; proof ids; nil parts;
+//   - every PAIR {header/id field} x {proof part} over reduced alphabets (donors: H neighbours, forks F(s-1), F(s));
+//   - whole responses of every world, in sessions of up to two advancing verifications + one re-read of an old tx.
+//   Oracle (judge): an accepted header must commit, at every position <= the trusted id, to what the trusted state
+//   commits to (positions <= BlTxID through BlRoot, the rest through the chain); backward: it must be the transaction
+//   the trusted state commits to. A fork strictly after the trusted transaction is legitimate: counted, never flagged.
+//   End-to-end oracle of the sessions: no two different transactions are ever accepted for one id.
+//   raw.go: DualProofV2 in the flow of its only caller (VerifyDocument), VerifyLinearProof, VerifyLinearAdvanceProof,
+//   VerifyInclusion (entry), ahtree.Verify{Inclusion,Consistency,LastInclusion}: altered proofs AND altered claims
+//   against ground truth over all worlds / the reference verifiers of package merkle.
 //
-// SERVER/CLIENT LAYER (client.go): the real pkg/client verification code (VerifiedGet/GetAt/TxByID/Set/ZAdd/
-// SetReference, VerifyRow) runs against a real pkg/database.DB through an in-process ImmuServiceClient that applies
-// every single alteration to the protobuf response; accepted => returned entry/tx and stored state are the history's.
+// SERVER/CLIENT LAYER (client.go), histories of 4..5 transactions (+ the ones the verified writes append): the REAL
+// pkg/client code (VerifiedGet, VerifiedGetAt, VerifiedTxByID, VerifiedSet, VerifiedZAdd, VerifiedSetReference,
+// VerifyRow; with and without server signing key) runs against a real pkg/database.DB through an in-process
+// ImmuServiceClient that signs like pkg/server and applies every single alteration of the protobuf response (generic
+// walk over all fields). Accepted => the stored state is a state of the database and the returned key, value,
+// metadata, transaction id are in its history. Plus one scripted malicious-server session (attackDemo).
 package main
 
 import (
